@@ -8,7 +8,7 @@
     lr.Parser.Parse / ParseAndBuildAST, for every grammar, table and input. *)
 From Coq Require Import List ZArith.
 From Algo.Grammar Require Import CFG.
-From Algo.C11 Require Import Model ModelPrec ModelSLR ModelLR1 Spec Proofs ProofsTerm ProofsOracle ProofsPrec ProofsPrecExpr ProofsLR0 ProofsSLR ProofsCLR ProofsLALR ProofsChain ProofsChain2 ProofsFuel ProofsGen ProofsClosure1 ProofsComplete ProofsCompleteSLR.
+From Algo.C11 Require Import Model ModelPrec ModelSLR ModelLR1 Spec Proofs ProofsTerm ProofsOracle ProofsPrec ProofsPrecExpr ProofsLR0 ProofsSLR ProofsCLR ProofsLALR ProofsChain ProofsChain2 ProofsFuel ProofsGen ProofsClosure1 ProofsComplete ProofsCompleteSLR ProofsCompleteLALR.
 Import ListNotations.
 
 (** Callbacks.  [Parse(tokenF, prodF)] takes two optional callbacks (either may be nil) and
@@ -117,13 +117,15 @@ Proof. intros ops ls o1 o2. apply prec_grouping. Qed.
     - the chain SLR ok => LALR ok => LR(1) ok: THEOREM on the modelled constructions
       ([C11_chain]; only premise: the LR(1) collection completes within the given fuel), tied to the Go code by the same table equality and
       additionally checked per instance on the Go verdicts;
-    - completeness (every sentence is accepted; "rejected => not a sentence"): THEOREM for the
-      modelled canonical LR(1) and SLR constructions ([C11_clr_complete], [C11_slr_complete] and the
-      [_recognises_exactly] corollaries: both accept exactly L(G), hence agree);
-      NOT proved for the modelled LALR construction (it needs that the cores of GOTO do not depend
-      on lookaheads), for which language agreement remains searched per instance against the oracle
-      [lang_upto], which is proved exact up to its bound, and against witnessed longer sentences;
-    - that constructed tables pass [term_ok]: not proved, evaluated per table. *)
+    - completeness (every sentence is accepted) and agreement of the accepted languages:
+      THEOREMS for the three modelled constructions ([C11_slr_complete], [C11_lalr_complete],
+      [C11_clr_complete], the [_recognises_exactly] corollaries "accepted for some fuel <-> L G w",
+      and [C11_constructions_agree]); tied to the Go code by the per-run table equality, and
+      additionally searched per instance against the oracle [lang_upto] (proved exact up to its
+      bound) and witnessed longer sentences;
+    - that constructed tables pass [term_ok], i.e. that the driver also terminates on NON-sentences
+      over constructed tables (so that "not accepted" becomes "Rejected" in [recognises]): not
+      proved (it needs conflict-free => no derivation cycle), evaluated per table. *)
 Definition reduced (G : gram) : Prop :=
   (forall A, In A (nonterms G) -> exists u v, derives G [Nt (start G)] (u ++ Nt A :: v)) /\
   (forall A, In A (nonterms G) -> exists x, derives G [Nt A] (map Tm x)).
@@ -416,6 +418,46 @@ Proof.
   - apply (C11_slr_complete G fuel tbl w Hv Hb).
 Qed.
 
+(** COMPLETENESS of the modelled LALR(1) construction (merge LR(1) states by core), same
+    statement.  Extra ingredient: the cores of CLOSURE and GOTO do not depend on lookaheads
+    (whether a closure item receives any lookahead is decided by its parent's core), so the GOTO
+    of a merged class is the class of the GOTO of any member. *)
+Theorem C11_lalr_complete :
+  forall (G : gram) (fuel : nat) (tbl : table) (w : list nat),
+    valid_grammar G -> build_lalr fuel G [] = BuiltOk tbl -> L G w ->
+    exists f evs, parse f tbl w = Accepted evs.
+Proof.
+  intros G fuel tbl w Hv Hb HL. destruct (canonical1 fuel G) as [C|] eqn:EC.
+  - exact (lalr_complete G Hv fuel C EC tbl Hb w HL).
+  - unfold build_lalr, finish, lalr_raw in Hb. rewrite EC in Hb. discriminate.
+Qed.
+
+Theorem C11_lalr_recognises_exactly :
+  forall (G : gram) (fuel : nat) (tbl : table) (w : list nat),
+    valid_grammar G -> build_lalr fuel G [] = BuiltOk tbl ->
+    ((exists f evs, parse f tbl w = Accepted evs) <-> L G w).
+Proof.
+  intros G fuel tbl w Hv Hb. split.
+  - intros [f [evs Hp]].
+    destruct (C11_lalr_parser_sound G fuel [] tbl f w evs (proj1 (proj1 Hv)) Hb Hp) as [HL _]. exact HL.
+  - apply (C11_lalr_complete G fuel tbl w Hv Hb).
+Qed.
+
+(** All successful modelled constructions accept the same strings (namely L(G)). *)
+Theorem C11_constructions_agree :
+  forall (G : gram) (f0 f1 f2 : nat) (t0 t1 t2 : table) (w : list nat),
+    valid_grammar G ->
+    build_slr f0 G [] = BuiltOk t0 -> build_lalr f1 G [] = BuiltOk t1 -> build_clr f2 G [] = BuiltOk t2 ->
+    ((exists f evs, parse f t0 w = Accepted evs) <-> (exists f evs, parse f t1 w = Accepted evs)) /\
+    ((exists f evs, parse f t1 w = Accepted evs) <-> (exists f evs, parse f t2 w = Accepted evs)).
+Proof.
+  intros G f0 f1 f2 t0 t1 t2 w Hv H0 H1 H2.
+  pose proof (C11_slr_recognises_exactly G f0 t0 w Hv H0) as E0.
+  pose proof (C11_lalr_recognises_exactly G f1 t1 w Hv H1) as E1.
+  pose proof (C11_clr_recognises_exactly G f2 t2 w Hv H2) as E2.
+  split; [rewrite E0, E1|rewrite E1, E2]; reflexivity.
+Qed.
+
 (** Witness checker for long sentences: a production sequence accepted by [lm_check] is a
     leftmost derivation of the string. *)
 Theorem C11_witness_sound :
@@ -504,4 +546,7 @@ Print Assumptions C11_clr_complete.
 Print Assumptions C11_clr_recognises_exactly.
 Print Assumptions C11_slr_complete.
 Print Assumptions C11_slr_recognises_exactly.
+Print Assumptions C11_lalr_complete.
+Print Assumptions C11_lalr_recognises_exactly.
+Print Assumptions C11_constructions_agree.
 Print Assumptions C11_d11a_unrepaired_table_refuted.
